@@ -10,7 +10,7 @@ use e5_decl::worlds::{self, Source, WorldCase};
 use serde_json::{json, Value};
 use std::collections::{BTreeMap, BTreeSet};
 
-fn print_case(b: Backend, variant: &str, args: &[String], case: &WorldCase, verbose: bool) -> bool {
+fn print_case(b: Backend, variant: &str, args: &[String], case: &WorldCase, verbose: bool) -> Vec<String> {
     println!("backend={} variant={variant} args={args:?} world={}", b.name(), case.id);
     if let Source::Inline(t) = &case.src {
         println!("--- WIT\n{t}---");
@@ -18,15 +18,15 @@ fn print_case(b: Backend, variant: &str, args: &[String], case: &WorldCase, verb
     match case::run(b, variant, args, case) {
         Outcome::Excluded(w) => {
             println!("excluded: {w}");
-            false
+            vec![]
         }
         Outcome::LoadError(e) => {
             println!("WIT does not load: {e}");
-            false
+            vec![]
         }
         Outcome::GenFailed(e) => {
             println!("generator failed (not a C13 verdict): {e}");
-            false
+            vec![]
         }
         Outcome::Machinery(e) => vcommon::machinery(&e),
         Outcome::Checked(c) => {
@@ -55,7 +55,7 @@ fn print_case(b: Backend, variant: &str, args: &[String], case: &WorldCase, verb
             for v in &c.verdict.violations {
                 println!("  VIOLATES {}:{}:{} — {}", b.name(), v.kind, v.pattern, v.what);
             }
-            !c.verdict.violations.is_empty()
+            c.verdict.violations.iter().map(|v| format!("{}:{}:{}", b.name(), v.kind, v.pattern)).collect()
         }
     }
 }
@@ -78,8 +78,10 @@ fn main() {
         };
         let key = d["key"].as_str().unwrap_or("");
         println!("replaying key {key}");
-        let bad = print_case(b, &variant, &args, &case, true);
-        std::process::exit(if bad { 1 } else { 0 });
+        let keys = print_case(b, &variant, &args, &case, true);
+        let still = keys.iter().any(|k| k == key);
+        println!("{}", if still { "the stored violation still occurs" } else { "the stored violation does not occur any more" });
+        std::process::exit(if still { 1 } else { 0 });
     }
 
     // ---- developer helpers: --dump <backend> <wit-path> [args…] ; --one <backend> <variant> <world-id-substring>
@@ -112,7 +114,7 @@ fn main() {
         let (vn, args) = worlds::variants(b).into_iter().find(|(n, _)| *n == a[2]).unwrap();
         let mut any = false;
         for w in all_worlds.iter().filter(|w| w.id.contains(a[3].as_str())) {
-            any |= print_case(b, vn, &args, w, a.get(4).is_some());
+            any |= !print_case(b, vn, &args, w, a.get(4).is_some()).is_empty();
         }
         std::process::exit(any as i32);
     }
@@ -125,9 +127,20 @@ fn main() {
         args: Vec<String>,
     }
     let mut items: Vec<Item> = vec![];
-    for (wi, _) in all_worlds.iter().enumerate() {
+    let thorough = run.thorough();
+    for (wi, w) in all_worlds.iter().enumerate() {
         for b in ALL_BACKENDS {
             for (variant, args) in worlds::variants(b) {
+                // quick tier: the four Rust variants that only change ownership / std / type
+                // merging / map type are exercised on the corpus only (all variants × all worlds
+                // in the thorough tier)
+                if !thorough
+                    && b == Backend::Rust
+                    && matches!(w.src, Source::Inline(_))
+                    && !matches!(variant, "default" | "async" | "borrowed")
+                {
+                    continue;
+                }
                 items.push(Item { w: wi, b, variant, args });
             }
         }
@@ -161,6 +174,7 @@ fn main() {
     let mut load_errors: BTreeSet<String> = BTreeSet::new();
     let mut excl_reasons: BTreeMap<String, usize> = BTreeMap::new();
     let mut encoder_outcomes: BTreeMap<String, usize> = BTreeMap::new();
+    let mut overruled: BTreeMap<String, usize> = BTreeMap::new();
     // key → (count, variants, smallest witness item index, what)
     let mut viol: BTreeMap<String, (usize, BTreeSet<String>, usize, String, usize)> = BTreeMap::new();
     let mut samples = vcommon::Samples::new(12);
@@ -195,6 +209,9 @@ fn main() {
                     fps_all.insert(fp);
                 }
                 *encoder_outcomes.entry(r["encoder"].as_str().unwrap_or("").to_string()).or_insert(0) += 1;
+                for o in r["overruled"].as_array().map(|a| a.as_slice()).unwrap_or(&[]) {
+                    *overruled.entry(format!("{}:{}", it.b.name(), o.as_str().unwrap_or(""))).or_insert(0) += 1;
+                }
                 if let Some(m) = r["inconsistent"].as_str() {
                     inconsistent.push(format!("{} {} {}: {m}", it.b.name(), it.variant, case.id));
                 }
@@ -278,10 +295,12 @@ fn main() {
         "distinct_nontrivial": fps_all.len(),
         "rule": "distinct (backend, set of extracted declaration shapes) where a shape = import/export class prefixes with identifiers erased + core signature; only generations with >=1 declaration count",
         "exhaustive": true,
+        "quick_tier_reduction": if thorough { "none" } else { "Rust variants borrowed-duplicate/no-std/merge-equal/hashmap run on the corpus only" },
         "bounds": {
             "function_shapes": worlds::SHAPES.iter().map(|s| s.0).collect::<Vec<_>>(),
             "positions": worlds::POSITIONS.iter().map(|p| format!("{p:?}")).collect::<Vec<_>>(),
             "asyncness": ["sync", "async"],
+            "function_pairs_thorough_only": worlds::PAIR_SHAPES,
             "resource_member_sets": worlds::RES_MEMBERS.iter().map(|s| s.0).collect::<Vec<_>>(),
             "namings": if run.thorough() { "plain|kebab x none|@1.2.3|@0.2.0-rc.1" } else { "kebab@1.2.3 for all, plain unversioned for str/futstr/handles and all resource/combined worlds" },
             "enumerated_worlds": n_enum,
@@ -292,6 +311,7 @@ fn main() {
         "per_backend": per_json,
         "distinct_outcomes": encoder_outcomes,
         "exclusions": excl_reasons,
+        "import_names_unknown_to_reference_but_accepted_by_encoder": overruled,
         "generator_failures_not_judged": gen_failed.iter().map(|(k, (n, w))| json!({"what": k, "count": n, "first_world": w})).collect::<Vec<_>>(),
         "violation_keys": viol.iter().map(|(k, v)| json!({"key": k, "cases": v.0})).collect::<Vec<_>>(),
         "samples": samples.items,
